@@ -12,6 +12,7 @@ import (
 	"sync"
 	"time"
 
+	"github.com/plgd-dev/go-coap/v3/message"
 	"github.com/plgd-dev/go-coap/v3/message/codes"
 	"github.com/plgd-dev/go-coap/v3/message/pool"
 	limiter "github.com/plgd-dev/go-coap/v3/net/client/limitParallelRequests"
@@ -127,6 +128,20 @@ func (w *world) do(req *pool.Message) (*pool.Message, error) {
 	return resp, nil
 }
 
+// doObserve: the wrapped observe function (every request with an even number goes through DoObserve: the limiter treats a
+// registration like any request)
+type noObs struct{}
+
+func (noObs) Cancel(context.Context, ...message.Option) error { return nil }
+func (noObs) Canceled() bool                                  { return false }
+
+func (w *world) doObserve(req *pool.Message, _ func(*pool.Message)) (limiter.Observation, error) {
+	if _, err := w.do(req); err != nil {
+		return nil, err
+	}
+	return noObs{}, nil
+}
+
 func (w *world) snapshot(n int) St {
 	w.mu.Lock()
 	st := St{InDo: []int{}, Ret: make([]string, n), Dos: append([]int{}, w.dos...), Q: make([]QSt, len(w.keys))}
@@ -172,7 +187,7 @@ func runOne(st Stim) Trace {
 	tr := Trace{T: st.T, EL: st.EL, L: st.L, PathOf: st.PathOf, Ev: []Event{}, Hung: []int{}, FinalQ: []QSt{}}
 	w := &world{inDo: map[int]bool{}, ret: map[int]string{}, finish: map[int]chan struct{}{}, pathOf: st.PathOf,
 		msgs: map[int]*pool.Message{}, cancels: map[int]context.CancelFunc{}, onFinish: map[int]func(){}}
-	w.lim = limiter.New(int64(st.L), int64(st.EL), w.do, nil)
+	w.lim = limiter.New(int64(st.L), int64(st.EL), w.do, w.doObserve)
 	np := 0
 	for _, p := range st.PathOf {
 		if p > np {
@@ -199,7 +214,12 @@ func runOne(st Stim) Trace {
 			req := newReq(ctx, st.PathOf[r-1], r)
 			started[r] = true
 			go func() {
-				_, err := w.lim.Do(req)
+				var err error
+				if r%2 == 0 {
+					_, err = w.lim.DoObserve(req, func(*pool.Message) {})
+				} else {
+					_, err = w.lim.Do(req)
+				}
 				w.mu.Lock()
 				if err != nil {
 					w.ret[r] = "err"
